@@ -34,7 +34,7 @@ func checkC05(r *Run) propMeta {
 		Explanation: "Decides the structural clauses of determinism and side-effect freedom of translation: (R1) every `range` over a map (and maps.Keys/Values) in a function reachable from Translate/FromCypher/Translated/format.Statement/optimize.Optimize is order-insensitive by the E9 classifier (keyed inserts/deletes, commutative accumulation, collect-then-sort, existential tests, error returns) or listed with a reason; no reachable use of time.Now, math/rand, goroutines, select or %p formatting; (R2) no reachable function writes a package-level variable outside init/sync.Once; (R3) the caller's AST reaches only the optimiser's nil test and cypher.Copy, and the caller's parameter map is only read (copied into a fresh map); (R4) translator stack pops are error-gated. (R5) a value obtained from a function that can return a negative 'not found' sentinel is compared before it is used as a slice index. NOT decided: general panic freedom and bounded running time (runtime quantities); the C06 finding ($n with bound (n)) is reported there.",
 		Assumptions: []string{"calls through the caller-supplied KindMapper and context.Context are the boundary and are not followed"},
 		TrustedBase: []string{"go/types", "this analyser"}}
-	if err := r.Load("./cypher/...", "./graph/..."); err != nil {
+	if err := r.Load("./cypher/...", "./graph/...", "./drivers/pg/pgutil"); err != nil {
 		r.Fatal("load: %v", err)
 	}
 	cg := BuildCallGraph(r, func(p string) bool { return strings.Contains(p, "/cypher/") || strings.HasSuffix(p, "/graph") })
@@ -51,6 +51,8 @@ func checkC05(r *Run) propMeta {
 	checkSentinelIndexes(r, cg, reach)
 	checkCountedLastElement(r, cg, reach)
 	checkValueContainersUnwritten(r, cg, reach)
+	checkConstantIndexGuarded(r, cg, reach)
+	checkLockFreeMappersReadOnly(r, r.Pkg("drivers/pg/pgutil"))
 	r.Floor("C05-R1-map-order", 12)
 	return meta
 }
